@@ -50,6 +50,14 @@ ORACLE_QUIRKS = {"matrixMaxJ"}      # emulated in pysem (the defect is in ast2as
 
 
 # ----------------------------------------------------------------------------- real code
+class _Timeout(BaseException):
+    """budget of one program exhausted (sympy's simplify_logic can blow up): machinery, not a verdict"""
+
+
+def _alarm(signum, frame):
+    raise _Timeout()
+
+
 class Lib:
     """the real library with two observation points wrapped from this process"""
 
@@ -408,19 +416,19 @@ def gen_stmt_program(rng, k):
         pool = ivars + [(v, 0) for v in locs]
         if r < 0.45 or not locs:
             v = f"t{len(locs)}"
-            body.append(f"\t{v} = {progs.gen_int_expr(rng, pool, bvars, rng.randint(1, 2))}")
+            body.append(f"\t{v} = {progs.gen_int_expr(rng, pool, bvars, rng.randint(1, 2), allow_mul=not locs)}")
             locs.append(v)
         elif r < 0.6:
             v = rng.choice(locs)
-            op = rng.choice(["+=", "-=", "^=", "&=", "|=", "*="])
-            body.append(f"\t{v} {op} {progs.gen_int_expr(rng, pool, bvars, 1)}")
+            op = rng.choice(["+=", "-=", "^=", "&=", "|=", "+=", "-=", "*="])
+            body.append(f"\t{v} {op} {progs.gen_int_expr(rng, pool, bvars, 1, allow_mul=False)}")
         elif r < 0.85:
             v = rng.choice(locs)
             c = progs.gen_cmp(rng, pool, bvars, 1)
-            body.append(f"\tif {c}:\n\t\t{v} = {progs.gen_int_expr(rng, pool, bvars, 1)}")
+            body.append(f"\tif {c}:\n\t\t{v} = {progs.gen_int_expr(rng, pool, bvars, 1, allow_mul=False)}")
             if rng.random() < 0.5:
                 v2 = rng.choice(locs)
-                body.append(f"\telse:\n\t\t{v2} = {progs.gen_int_expr(rng, pool, bvars, 1)}")
+                body.append(f"\telse:\n\t\t{v2} = {progs.gen_int_expr(rng, pool, bvars, 1, allow_mul=False)}")
         else:
             v = rng.choice(locs)
             body.append(f"\tfor i in range({rng.randint(1, 3)}):\n\t\t{v} = {v} {rng.choice(['+', '^', '-'])} "
@@ -429,7 +437,7 @@ def gen_stmt_program(rng, k):
     if rng.random() < 0.3:
         ret, e = "bool", progs.gen_cmp(rng, pool, bvars, 1)
     else:
-        ret, e = f"Qint[{rng.choice([2, 3, 4, 6, 8])}]", progs.gen_int_expr(rng, pool, bvars, 1)
+        ret, e = f"Qint[{rng.choice([2, 3, 4, 6, 8])}]", progs.gen_int_expr(rng, pool, bvars, 1, allow_mul=False)
     body.append(f"\treturn {e}")
     return f"def fns_{k}({', '.join(args)}) -> {ret}:\n" + "\n".join(body)
 
@@ -462,10 +470,33 @@ class Case:
         self.missing = []       # return bits never defined
         self.accept_disagree = None
         self.main = None        # the profile whose output is judged
+        self.timeout = False
         self.expected = None    # per row list of expected bits (None = unclaimed)
 
 
-def observe(lib, tag, src, profiles=("fast", "default")):
+def observe(lib, tag, src, profiles=("fast", "default"), budget=15):
+    import signal
+
+    old = signal.signal(signal.SIGALRM, _alarm)
+    # the timer repeats: a bare `except:` inside the library or sympy may swallow one alarm
+    signal.setitimer(signal.ITIMER_REAL, budget, 0.5)
+    try:
+        c = _observe(lib, tag, src, profiles)
+        signal.setitimer(signal.ITIMER_REAL, 0)
+        return c
+    except _Timeout:
+        signal.setitimer(signal.ITIMER_REAL, 0)
+        c = Case(tag, src)
+        c.timeout = True
+        c.main = profiles[0]
+        c.code = {p: dict(ok=False, error="timeout", tree=None, consts=[]) for p in profiles}
+        return c
+    finally:
+        signal.setitimer(signal.ITIMER_REAL, 0)
+        signal.signal(signal.SIGALRM, old)
+
+
+def _observe(lib, tag, src, profiles=("fast", "default")):
     c = Case(tag, src)
     try:
         c.prog = pysem.Program(src)
@@ -630,6 +661,12 @@ def settle(ctx, res, cases, stats):
         for what, detail in c.violations:
             res.violation(cj, what, detail=detail)
         malformed_tag = c.tag.startswith("malformed")
+        if c.timeout:
+            stats["timeouts"] = stats.get("timeouts", 0) + 1
+            stats.setdefault("timeout_samples", [])
+            if len(stats["timeout_samples"]) < 5:
+                stats["timeout_samples"].append(c.src)
+            continue
         if not first["ok"]:
             if malformed_tag:
                 stats["malformed_rejected"] += 1
@@ -868,7 +905,7 @@ def run_arith(ctx, lib, res, stats):
 
 # ----------------------------------------------------------------------------- run
 def nontrivial(c):
-    return c.prog is not None and c.code[c.main]["ok"] and c.oracle == "ok"
+    return not c.timeout and c.prog is not None and c.code[c.main]["ok"] and c.oracle == "ok"
 
 
 def run(ctx: Ctx) -> Result:
@@ -880,9 +917,9 @@ def run(ctx: Ctx) -> Result:
                  malformed_accepted_but_right=0)
     stream = list(systematic())
     stream += [("malformed:" + n, s) for n, s in MALFORMED]
-    n_int = 2500 if ctx.thorough else 130
-    n_bool = 300 if ctx.thorough else 25
-    n_stmt = 1500 if ctx.thorough else 90
+    n_int = 1600 if ctx.thorough else 130
+    n_bool = 200 if ctx.thorough else 25
+    n_stmt = 900 if ctx.thorough else 90
     for k in range(n_int):
         stream.append(("rand:expr", progs.gen_int_program(rng, k, max_bits=9 if ctx.thorough else 8)))
     for k in range(n_bool):
@@ -893,7 +930,7 @@ def run(ctx: Ctx) -> Result:
         run_arith(ctx, lib, res, stats)
         batch = []
         for tag, src in stream:
-            c = observe(lib, tag, src)
+            c = observe(lib, tag, src, budget=12 if ctx.thorough else 5)
             res.count(dict(src=src), nontrivial=nontrivial(c), bucket=tag.split(":")[0] + ":" + tag.split(":")[1][:12])
             batch.append(c)
             if len(batch) >= 400:
